@@ -9,4 +9,5 @@ func init() {
 	stepsGet = func() int64 { return verifrt.Steps }
 	stepsSetBudget = func(n int64) { verifrt.Steps = 0; verifrt.Budget = n }
 	setHook = func(f func()) { verifrt.Hook = f }
+	CoverageGet = func() []uint8 { return verifrt.Hits[:] }
 }
